@@ -324,6 +324,15 @@ func valueReaches(v, src ssa.Value, depth int) bool {
 	case *ssa.ChangeType:
 		return valueReaches(x.X, src, depth+1)
 	case *ssa.UnOp:
+		if al, ok := x.X.(*ssa.Alloc); ok {
+			// a local that lives in memory (captured by a closure): follow what was stored into it
+			for _, r := range *al.Referrers() {
+				if st, ok := r.(*ssa.Store); ok && st.Addr == ssa.Value(al) && valueReaches(st.Val, src, depth+1) {
+					return true
+				}
+			}
+			return false
+		}
 		return valueReaches(x.X, src, depth+1)
 	case *ssa.FieldAddr:
 		return valueReaches(x.X, src, depth+1)
